@@ -63,15 +63,15 @@ theorem intConst_same_number (k : Kind) (hk : k.isFloat = false) (v : Int) (hr :
 
 /-- the untyped program is the typed one with annotations erased: same opcodes for everything but
     identifiers (mapEnv), `==` and integer literals — stated on the compile model for the three node forms -/
-theorem typed_differs_only_at (cfg : CompCfg) (m : Meta) (name : String) (ns : Bool) (p : Pool) :
-    ∃ k p', mkConst (.str name) p = .ok (k, p') →
-      compileNode cfg (.ident m name ns) p =
-        .ok ([li m.loc (if cfg.mapEnv then Op.fetchMap else if ns then .fetchNilSafe else .fetch) k], p') := by
-  cases h : mkConst (.str name) p with
-  | error e => exact ⟨0, p, fun h' => by cases h'⟩
-  | ok r =>
-    refine ⟨r.1, r.2, fun _ => ?_⟩
-    simp [compileNode, h, bind, Except.bind, pure, Except.pure]
+theorem typed_differs_only_at (cfg : CompCfg) (m : Meta) (name : String) (ns : Bool) (p p' : Pool) (k : Nat)
+    (h : mkConst (.str name) p = .ok (k, p')) :
+    compileNode cfg (.ident m name ns) p =
+      .ok ([li m.loc (if cfg.mapEnv then Op.fetchMap else if ns then .fetchNilSafe else .fetch) k], p') := by
+  simp [compileNode, h, bind, Except.bind, pure, Except.pure]
+
+/-- the hypothesis is met on the empty pool: the name becomes constant 0 -/
+example : compileNode {} (.ident {} "x" false) {} = .ok ([li ({} : Meta).loc Op.fetch 0], ⟨#[.str "x"], []⟩) :=
+  typed_differs_only_at {} {} "x" false {} _ 0 rfl
 
 end ExprModel.C15
 
